@@ -232,6 +232,27 @@ def producer_case(p, res):
         if llr_rows:
             sel = list(range(0, len(llr_rows), max(1, len(llr_rows) // 120)))
             feed_consumers([llr_rows[i] for i in sel], [bit_rows[i] for i in sel], min_mag, res, scheme, f"{scheme},{cfg}")
+    # one long frame of fixed pseudo-random bits (5003 symbols in one row and 2 x 4500 symbols for BPSK / QPSK, 403 and 2 x 299 for the others): every LLR carries the sign of ITS bit, scalar and 0-d noise variance
+    if kind == "memoryless":
+        from kaira.models.fec.utils import llr_to_bits
+        nsym = 5003 if scheme in ("bpsk", "qpsk") else 403     # (the library's other soft demodulators loop over the symbols in Python; their long calls are C06's)
+        for shape in ((1, nsym), (2, nsym - 503 if nsym > 1000 else nsym - 104)):
+            xb = torch.randint(0, 2, (shape[0], shape[1] * b), generator=torch.Generator().manual_seed(77 + b)).to(torch.float32)
+            for nv in (0.3, torch.tensor(2.0)):
+                cfg = f"{cfgs},long-frame,{shape[0]}x{shape[1]},noise_var={'0d' if isinstance(nv, torch.Tensor) else nv}"
+                try:
+                    llr = dem(mod(xb), nv)
+                except Exception as e:  # noqa: BLE001
+                    res.viol(scheme, cfg, "raises", f"{type(e).__name__}: {str(e)[:160]}")
+                    continue
+                res.ev(xb.numel(), nontrivial=xb.numel(), transitions=2)
+                if tuple(llr.shape) != tuple(xb.shape):
+                    res.viol(scheme, cfg, "polarity", f"{tuple(xb.shape)} bits sent, LLRs of shape {tuple(llr.shape)} returned")
+                    continue
+                wrong = ((llr < 0).to(torch.float32) != xb) | (llr == 0)
+                if bool(wrong.any()) or not torch.equal(llr_to_bits(llr).to(torch.float32), xb):
+                    i = int(wrong.reshape(-1).nonzero()[0]) if bool(wrong.any()) else -1
+                    res.viol(scheme, cfg, "polarity", f"{int(wrong.sum())} of {xb.numel()} noise-free LLRs do not carry the sign of their bit (first at bit {i}: symbol {i // b} of {shape[1]} in its row)", {"bit": i})
     res.sample({"scheme": scheme, "cfg": cfgs, "lengths": lens})
 
 
